@@ -816,3 +816,59 @@ def run_C14(ctx):
         "inside the backend's event handler (barrier listener) and compared by TLC with the model, as are backend callbacks, the proxy "
         "the backend was handed, used-ring bytes in the file backing the latest table and call eventfd counters",
         ASSUME_COMMON + ["ring addresses are checked through the single user-address mapping of pool region 0/4"], viol)
+
+
+DLO = [3, 5, 9, 14, 33]
+DHI = [5, 7, 12, 18, 35]
+
+
+def run_C15(ctx):
+    hist = ctx.tlc_mc("MC_DirtyLog", "MC_DirtyLog_" + ctx.tier)
+    rnd = random.Random(ctx.seed)
+    if ctx.tier == "thorough" and len(hist) > 150000:
+        hist = rnd.sample(hist, 150000)
+    uas = [0x7000_0000_0000, 0x10000, 0x5555_0000_0000, 0x1234_5678_0000, 0x6000_0000]
+    cases = []
+    for i, c in enumerate(hist):
+        pool = [dict(gpa=limbs(DLO[r] * 4096), size=limbs((DHI[r] - DLO[r]) * 4096), ua=limbs(uas[r]), off=limbs(rnd.choice([0, 0x1000]))) for r in range(5)]
+        steps = [dict(op="negotiate", feats=[], pf=[1, 3, 13, 15])]
+        ring_ready = False
+        for a in c["steps"]:
+            op = a["op"]
+            if op == "set_mem_table":
+                steps.append(dict(op=op, rids=a["rids"], badfd=False))
+                ring_ready = False
+            elif op == "add_mem_reg":
+                steps.append(dict(op=op, rid=a["rid"], badfd=False))
+            elif op == "set_log_base":
+                steps.append(dict(op=op, size=limbs(a["S"]), off=limbs(a["off"])))
+            elif op == "write":
+                size = (DHI[a["rid"]] - DLO[a["rid"]]) * 4096
+                o = {"0": 0, "1": 1, "4095": 4095, "end-1": size - 1, "end-4096": size - 4096}[a["wo"]]
+                n = {"0": 0, "1": 1, "2": 2, "4096": 4096, "4097": 4097, "8192": 8192, "huge": 1 << 20}[a["wl"]]
+                steps.append(dict(op=op, rid=a["rid"], o=limbs(o), len=limbs(n)))
+            elif op == "use_ring":
+                if not ring_ready:
+                    steps.append(dict(op="set_vring_kick", q=0, fd="new"))
+                    steps.append(dict(op="set_vring_addr", q=0, rid=0, odesc=limbs(0x100), oavail=limbs(0x300), oused=limbs(0x400), used_idx=0))
+                    ring_ready = True
+                steps.append(dict(op="use_ring", q=0, idx=0, len=8, oused=limbs(0x400)))
+        cases.append(dict(nq=1, masks=[1], pool=pool, vring="rwlock" if i % 2 else "mutex", steps=steps))
+    # concurrent writers on bits of the same log byte
+    for n in ((2, 8) if ctx.tier == "quick" else (2, 3, 4, 8, 12, 16)):
+        cases.append(dict(nq=1, masks=[1], stress=dict(threads=n, iters=20000 if ctx.tier == "quick" else 400000), steps=[]))
+    cases = replay_or(ctx, "daemon", cases)
+    tr = ctx.harness("daemon", cases, shards=12)
+    viol = ctx.tlc_tv("TV_DirtyLog", tr, "daemon")
+    ctx.count_distinct(tr, lambda e: (e.get("op"), json.dumps(e.get("letter"), sort_keys=True), e.get("status"), json.dumps(e.get("out", {}).get("newbits"))),
+                       lambda e: e.get("ev") == "step" and e.get("op") in ("write", "use_ring", "set_log_base"))
+    ctx.sample(tr, 2, skip=5)
+    return ctx.finish("model_checking",
+        "DirtyLog.tla: all histories to depth 4 (5 thorough) over {SET_MEM_TABLE with 1..4 page-aligned regions sharing log bytes, "
+        "ADD_MEM_REG, SET_LOG_BASE with windows of 1,2,3,5,4096 bytes at offsets 0/4096 (too small to ample), guest-memory writes at offsets "
+        "0,1,4095,end-1,end-4096 with lengths 0,1,2,4096,4097,8192,2^20, used-ring update by the backend} are explored by TLC and replayed on "
+        "a real daemon; after each write the shared log file and its guard bytes are read and TLC compares the set of newly set bits with "
+        "the pages the write touched (bit gpa/4096, LSB first), no bit cleared, guards intact, too small a log rejected. Race clause: "
+        "2..16 writer threads marking distinct pages of one log byte through the daemon's guest memory, every round checked for a lost bit "
+        "(probabilistic: a non-atomic read-modify-write is caught only when two updates actually collide)",
+        ASSUME_COMMON + ["the exploration level applies to the race clause: detection of a non-atomic bitmap update is probabilistic"], viol)
